@@ -193,6 +193,19 @@ Example C02_vm_correct_arrays_example : exists M, compile_program ex_arr = Some 
 Proof. exact ex_arr_correct. Qed.
 Print Assumptions C02_vm_correct_arrays_example.
 
+(* ... and on string programs (every string operation of the fragment: + on strings, str_concat, str_length, str_equals,
+   str_contains, char_at, str_substring, int_to_string; a global string, string parameter / result, assignment) *)
+Example C02_vm_correct_strings_example : exists M, compile_program ex_str = Some M /\
+  run_ref 200%nat ex_str = Done ex_str_out 119 /\
+  ((exists fuel', run_vm fuel' M = VDone ex_str_out 119) \/ (exists fuel' o, run_vm fuel' M = VError ECallDepth o)) /\
+  run_vm 5000%nat M = VDone ex_str_out 119.
+Proof. exact ex_str_correct. Qed.
+Print Assumptions C02_vm_correct_strings_example.
+(* outside the domain on which the two engines agree the reference is undefined and vm_correct says nothing *)
+Example C02_char_at_outside_the_common_domain : exists M, compile_program ex_str_dom = Some M /\
+  run_ref 50%nat ex_str_dom = Faulted FStrDomain [] /\ run_vm 500%nat M = VDone [45; 49; 10]%N 0.
+Proof. exact ex_str_dom_runs. Qed.
+
 (* ... and (at v1 3) on a three-element array after "1" was printed *)
 Example C02_vm_correct_oob_example : exists M, compile_program ex_oob = Some M /\
   run_ref 100%nat ex_oob = Faulted FOob [49; 10]%N /\
